@@ -49,8 +49,10 @@ def seed_value(seed):
 
 def operand(h):
     """An operand of a binary op: a history, or ['lit', str] for a plain str."""
-    if h[0] == 'lit' and len(h) == 2 and isinstance(h[1], str):
-        return h[1]
+    if isinstance(h[0], str):
+        if h[0] == 'lit':
+            return h[1]
+        return seed_value(h)       # a bare seed
     return build(h)
 
 
@@ -75,7 +77,7 @@ def apply_op(v, op):
         v += operand(op[1])
         return v
     if k == 'rcat':
-        return build(op[1]) + v
+        return operand(op[1]) + v
     if k == 'selfcat':
         return v + v
     if k == 'iselfcat':
